@@ -469,10 +469,35 @@ class ExprMixin(object):
                 if isinstance(vs, Raised):
                     yield st2, vs
                     continue
-                if all(k.is_py and isinstance(k.py, str) for k in ks):
-                    yield st2, mk(PyDict(zip([k.py for k in ks], vs)))
-                else:
+                if not all(k.is_py and isinstance(k.py, str) for k in ks):
                     raise OutOfReach('dict display with symbolic keys')
+                yield self.new_dict(st2, [k.py for k in ks], vs)
+
+    def new_dict(self, st, keys, vs):
+        """dict display with constant string keys -> heap dict; a ghost shadow remembers the key set and the
+        static types (needed for ** expansion and .update)"""
+        valty = self.elem_type_of(vs) if vs else ANY
+        code = code_of(valty)
+        st, a = self.alloc(st, 'dict')
+        dom = z3.K(StrS, z3.BoolVal(False))
+        val = z3.K(StrS, self.default_term(code))
+        shadow = []
+        for k, v in zip(keys, vs):
+            st, t = self.store_term(st, v, code)
+            dom = z3.Store(dom, z3.StringVal(k), z3.BoolVal(True))
+            val = z3.Store(val, z3.StringVal(k), t)
+            shadow = [(kk, vv) for kk, vv in shadow if kk != k] + [(k, v)]
+        st = self.HS(st, 'Dd', z3.Store(self.H(st, 'Dd'), a, dom))
+        st = self.HS(st, 'Dv.' + code, z3.Store(self.H(st, 'Dv.' + code), a, val))
+        st.ghost['shadow:%s' % a] = tuple(shadow)
+        return st, SV(a, DictT(valty))
+
+    def dict_shadow(self, st, d):
+        if d.is_py and isinstance(d.py, PyDict):
+            return tuple(d.py.items.items())
+        if d.is_py:
+            return None
+        return st.ghost.get('shadow:%s' % d.term)
 
     def ev_IfExp(self, node, st, fr):
         for st1, c in self.ev(node.test, st, fr):
@@ -580,7 +605,8 @@ class ExprMixin(object):
                     raise OutOfReach('is on non-references')
             yield st, (c if isinstance(op, ast.Is) else self.not_(c))
         elif isinstance(op, (ast.Lt, ast.LtE, ast.Gt, ast.GtE)):
-            yield self.order(st, op, a, b)
+            for r in self.order_narrow(st, op, a, b):
+                yield r
         elif isinstance(op, (ast.In, ast.NotIn)):
             for st1, c in self.contains(st, b, a, fr):
                 if isinstance(c, Raised):
@@ -610,6 +636,25 @@ class ExprMixin(object):
             c = {ast.Lt: lambda: ta < tb, ast.LtE: lambda: ta <= tb, ast.Gt: lambda: tb < ta,
                  ast.GtE: lambda: tb <= ta}[type(op)]()
         return st, c
+
+    def order_narrow(self, st, op, a, b, depth=0):
+        """ordering comparison with None-able operands: None raises TypeError (python 3)"""
+        for which, x in ((0, a), (1, b)):
+            if not x.is_py and x.ty.kind == 'opt' and code_of(x.ty.args[0]) in 'SI':
+                for st1, isn in self.branch(st, self.is_none(x)):
+                    if isn:
+                        if self.spec_mode:
+                            continue
+                        yield self.raise_(st1, TypeError, 'ordering with None')
+                    else:
+                        st2, u = self.unbox(st1, x.term, x.ty.args[0])
+                        for r in self.order_narrow(st2, op, u if which == 0 else a, b if which == 0 else u, depth + 1):
+                            yield r
+                return
+            if x.is_py and x.py is None:
+                yield self.raise_(st, TypeError, 'ordering with None')
+                return
+        yield self.order(st, op, a, b)
 
     def num_or_str(self, v):
         if v.is_py:
@@ -770,6 +815,20 @@ class ExprMixin(object):
                     yield r
 
     def binop(self, st, op, a, b, fr):
+        if isinstance(op, (ast.BitOr, ast.BitAnd)) and a.is_py and b.is_py and isinstance(a.py, frozenset) \
+                and isinstance(b.py, frozenset):
+            yield st, mk((a.py | b.py) if isinstance(op, ast.BitOr) else (a.py & b.py))
+            return
+        if isinstance(op, ast.Sub) and a.is_py and isinstance(a.py, frozenset) and b.is_py:
+            from .builtins import SetOf
+            if isinstance(b.py, frozenset):
+                yield st, mk(a.py - b.py)
+                return
+            if isinstance(b.py, SetOf) and b.py.kind == 'dictkeys':
+                d = b.py.src
+                dom = self.H(st, 'Dd')[d.term]
+                yield st, mk(CondSet([(k, z3.Not(dom[z3.StringVal(k)])) for k in sorted(a.py)]))
+                return
         if a.is_py and b.is_py and isinstance(a.py, (int, str)) and isinstance(b.py, (int, str, tuple)) \
                 and not isinstance(a.py, bool):
             try:
